@@ -64,6 +64,8 @@ class Engine:
         self._keep = []
         self._divcache = {}
         self.on_budget = None
+        self.fresh_logic = None
+        self._fresh_model = None
         self.path_t0 = time.time()
 
     def fresh(self, name, sort="int"):
@@ -77,7 +79,18 @@ class Engine:
 
     def check(self, *extra, count=True):
         t = time.time()
-        r = self.solver.check(*extra)
+        if self.fresh_logic:
+            # non-incremental mode (FP harnesses): every query on a fresh solver for the given logic
+            s = z3.SolverFor(self.fresh_logic)
+            s.set("timeout", self.timeout_ms)
+            for a in self.solver.assertions():
+                s.add(a)
+            for x in extra:
+                s.add(x)
+            r = s.check()
+            self._fresh_model = s.model() if r == z3.sat else None
+        else:
+            r = self.solver.check(*extra)
         dt = time.time() - t
         self.solver_s += dt
         if count:
@@ -175,13 +188,30 @@ class Engine:
             return "unsat", None
         r = self.check(z3.Not(goal))
         if r == z3.sat:
-            return "sat", self.solver.model()
+            return "sat", (self._fresh_model if self.fresh_logic else self.solver.model())
+        return str(r), None
+
+    def refute_fresh(self, goal, logic=None, timeout_ms=None):
+        """like refute, but on a fresh non-incremental solver (z3 then uses its dedicated tactic for the logic,
+        e.g. bit-blasting for QF_FP, instead of the incremental core)"""
+        s = z3.SolverFor(logic) if logic else z3.Solver()
+        s.set("timeout", timeout_ms or self.timeout_ms)
+        for a in self.solver.assertions():
+            s.add(a)
+        s.add(z3.Not(goal))
+        t = time.time()
+        r = s.check()
+        self.solver_s += time.time() - t
+        self.stats["queries"] += 1
+        self.stats["q_" + str(r)] += 1
+        if r == z3.sat:
+            return "sat", s.model()
         return str(r), None
 
     def model(self):
         r = self.check(count=False)
         if r == z3.sat:
-            return self.solver.model()
+            return self._fresh_model if self.fresh_logic else self.solver.model()
         return None
 
 
